@@ -630,10 +630,12 @@ Record raw_opts := mkRaw {
   o_ratio_ok : bool;       (* 0 <= DataFileMergeRatio <= 1 *)
   o_bps : N;               (* BytesPerSync *)
   o_sync : N;              (* SyncStrategy *)
+  o_index : N;             (* IndexType *)
 }.
 Definition check_options (o : raw_opts) : bool :=
   negb (o_dir_empty o) && o_fsize_pos o && o_ratio_ok o && (o_bps o <=? 16777216) &&
-  negb ((o_sync o =? sync_Threshold) && (o_bps o =? 0)).
+  negb ((o_sync o =? sync_Threshold) && (o_bps o =? 0)) &&
+  ((o_index o =? idx_BTree) || (o_index o =? idx_SkipList) || (o_index o =? idx_HashMap)).
 
 (* ---- Close ----------------------------------------------------------------------- *)
 Fixpoint close_all (io : N) (files : list (N * lfile)) : list (N * lfile) * list event :=
